@@ -43,93 +43,301 @@ TRUSTED = ["translator props/c20.py:translate extracts the counter type of gener
 INT_BITS = {"u8": 8, "u16": 16, "u32": 32, "u64": 64, "usize": 64, "u128": 128, "i32": 31, "i64": 63, "isize": 63}
 
 
-def translate():
-    fails = []
-    src = open(os.path.join(vlib.REPO, "command/src/config.rs")).read()
-    m = re.search(r"pub fn generate_config_messages\(&self\).*?\n    \}\n", src, re.S)
-    bits = None
-    if not m:
-        fails.append("config.rs: generate_config_messages not found")
-    else:
-        body = m.group(0)
-        c = re.search(r"let mut count(?:\s*:\s*(\w+))?\s*=\s*0(?:_?(\w+))?\s*;", body)
-        if not c:
-            fails.append("config.rs: generate_config_messages no longer declares `let mut count = 0<ty>`")
+FACTS_PATH = os.path.join(os.path.dirname(os.path.abspath(__file__)), "c20_facts.json")
+NUM_CONSTS = dict(
+    default_front_timeout="DEFAULT_FRONT_TIMEOUT", default_back_timeout="DEFAULT_BACK_TIMEOUT",
+    default_connect_timeout="DEFAULT_CONNECT_TIMEOUT", default_request_timeout="DEFAULT_REQUEST_TIMEOUT",
+    default_udp_front_timeout="DEFAULT_UDP_FRONT_TIMEOUT", default_udp_back_timeout="DEFAULT_UDP_BACK_TIMEOUT",
+    default_udp_max_rx="DEFAULT_UDP_MAX_RX_DATAGRAM_SIZE", default_udp_max_flows="DEFAULT_UDP_MAX_FLOWS",
+    default_buffer_size="DEFAULT_BUFFER_SIZE", h2_min_buffer_size="H2_MIN_BUFFER_SIZE",
+    default_hsts_max_age="DEFAULT_HSTS_MAX_AGE", default_tickets="DEFAULT_SEND_TLS_13_TICKETS")
+
+
+def strip_comments(src):
+    """// and /* */ comments replaced by a space; string, raw-string and char literals kept verbatim"""
+    out, i, n = [], 0, len(src)
+    while i < n:
+        c = src[i]
+        if src.startswith("//", i):
+            j = src.find("\n", i)
+            i = n if j < 0 else j
+            out.append(" ")
+        elif src.startswith("/*", i):
+            depth, j = 1, i + 2
+            while j < n and depth:
+                if src.startswith("/*", j): depth += 1; j += 2
+                elif src.startswith("*/", j): depth -= 1; j += 2
+                else: j += 1
+            out.append(" " + "\n" * src.count("\n", i, j)); i = j
+        elif c == '"':
+            j = i + 1
+            while j < n and src[j] != '"':
+                j += 2 if src[j] == "\\" else 1
+            out.append(src[i:j + 1]); i = j + 1
+        elif c == "r" and re.match(r'r#*"', src[i:]) and (i == 0 or not (src[i - 1].isalnum() or src[i - 1] == "_")):
+            m = re.match(r'r(#*)"', src[i:])
+            j = src.find('"' + m.group(1), i + len(m.group(0)))
+            j = n if j < 0 else j + 1 + len(m.group(1))
+            out.append(src[i:j]); i = j
+        elif c == "'":
+            m = re.match(r"'(\\.[^']*|[^\\'])'", src[i:])
+            k = len(m.group(0)) if m else 1
+            out.append(src[i:i + k]); i += k
         else:
-            ty = c.group(1) or c.group(2) or "i32"
-            if ty not in INT_BITS:
-                fails.append("config.rs: unknown counter type %s" % ty)
+            out.append(c); i += 1
+    return "".join(out)
+
+
+def fn_bodies(src, name):
+    """bodies (brace matched, braces inside string literals ignored) of every `fn <name>` of the comment-free source"""
+    res = []
+    for m in re.finditer(r"\bfn\s+%s\b" % re.escape(name), src):
+        i, depth = m.end(), 0
+        while i < len(src) and not (src[i] == "{" and depth == 0):
+            if src[i] in "([": depth += 1
+            elif src[i] in ")]": depth -= 1
+            elif src[i] == ";" and depth == 0: break
+            i += 1
+        if i >= len(src) or src[i] != "{":
+            continue
+        depth, j, instr = 0, i, False
+        while j < len(src):
+            ch = src[j]
+            if instr:
+                if ch == "\\": j += 1
+                elif ch == '"': instr = False
+            elif ch == '"': instr = True
+            elif ch == "{": depth += 1
+            elif ch == "}":
+                depth -= 1
+                if depth == 0:
+                    res.append(src[i + 1:j]); break
+            j += 1
+    return res
+
+
+def const_expr(src, name):
+    """right-hand side of `const NAME: T = <expr>;` (any visibility, associated or free), or None"""
+    m = re.search(r"\bconst\s+%s\s*:\s*[^=;]+=\s*([^;]+);" % re.escape(name), src)
+    return m.group(1).strip() if m else None
+
+
+def int_value(src, expr, depth=0):
+    """integer meant by a literal (underscores, type suffix), a parenthesised literal, or a named constant of the file"""
+    if expr is None or depth > 4:
+        return None
+    e = expr.strip()
+    while e.startswith("(") and e.endswith(")"):
+        e = e[1:-1].strip()
+    e = re.sub(r"\s+as\s+\w+$", "", e)
+    m = re.fullmatch(r"([0-9][0-9_]*)(?:_?(?:u|i)(?:8|16|32|64|128|size))?", e)
+    if m:
+        return int(m.group(1).replace("_", ""))
+    m = re.fullmatch(r"(?:(?:Self|self|crate|super|\w+)::)*([A-Z][A-Z0-9_]*)", e)
+    if m:
+        return int_value(src, const_expr(src, m.group(1)), depth + 1)
+    return None
+
+
+def bool_value(src, expr, depth=0):
+    e = (expr or "").strip()
+    if e in ("true", "false"):
+        return e == "true"
+    m = re.fullmatch(r"(?:(?:Self|self|crate|super|\w+)::)*([A-Z][A-Z0-9_]*)", e)
+    if m and depth < 4:
+        return bool_value(src, const_expr(src, m.group(1)), depth + 1)
+    return None
+
+
+def str_array(src, name):
+    """string literals of `const NAME: [&str; N] = [ ... ];` / `&[&str] = &[ ... ];`"""
+    m = re.search(r"\bconst\s+%s\s*:\s*&?\s*\[\s*&(?:'static\s+)?str\s*(?:;\s*\w+\s*)?\]\s*=\s*&?\s*\[(.*?)\]\s*;" % re.escape(name), src, re.S)
+    return re.findall(r'"([^"]*)"', m.group(1)) if m else None
+
+
+def read_facts(src_raw, proto_raw):
+    """-> (facts read (None where a construct was not recognised), hard failures, unreadable messages)"""
+    hard, soft = [], []
+    src = strip_comments(src_raw)
+    facts = {}
+    # --- generate_config_messages: the counter and the numbering discipline.  The ids are built where
+    # format!("CONFIG-{<counter>}") stands: in generate_config_messages itself or in a private helper it calls.
+    facts["counter_bits"] = None
+    bodies = fn_bodies(src, "generate_config_messages")
+    id_re = r'format!\(\s*"CONFIG-\{(?:(\w+)\}"\s*\)|\}"\s*,\s*(?:&\s*|\*\s*)?(\w+)\s*\))'
+    first = re.search(id_re, src)
+    if len(bodies) != 1 or not first:
+        hard.append("config.rs: fn generate_config_messages / the format!(\"CONFIG-{<counter>}\") that numbers its messages not found: "
+                    "the width of the message counter cannot be read (model: a %s-bit counter)")
+    else:
+        owner = re.findall(r"\bfn\s+(\w+)", src[:first.start()])[-1]
+        obody = fn_bodies(src, owner)
+        sig = re.search(r"\bfn\s+%s\b(.*?)\{" % re.escape(owner), src, re.S)
+        if len(obody) != 1 or (owner != "generate_config_messages" and not re.search(r"\b%s\s*\(" % re.escape(owner), bodies[0])):
+            hard.append("config.rs: the ids CONFIG-<n> are built in fn %s, which generate_config_messages does not call: the message "
+                        "counter cannot be read (model: a %%s-bit counter)" % owner)
+        else:
+            body = obody[0]
+            found = re.findall(id_re, body)
+            names = set(a or b for a, b in found)
+            n_ids = len(found)
+            n_push = len(re.findall(r"\b\w+\.push\(\s*WorkerRequest\s*\{", body))
+            counter = names.pop() if len(names) == 1 else None
+            if counter is None:
+                hard.append("config.rs: fn %s numbers its messages from several names %s: the message counter cannot be read" % (owner, sorted(names)))
             else:
-                bits = INT_BITS[ty]
-        if len(re.findall(r'id: format!\("CONFIG-\{count\}"\)', body)) != len(re.findall(r"v\.push\(WorkerRequest", body)):
-            fails.append("config.rs: a generated message is no longer numbered CONFIG-{count}")
-        if len(re.findall(r"count \+= 1;", body)) != len(re.findall(r"v\.push\(WorkerRequest", body)):
-            # the last push (ConfigureMetrics) has its increment commented out
-            if len(re.findall(r"count \+= 1;", body)) != len(re.findall(r"v\.push\(WorkerRequest", body)) - 1 or "// count += 1;" not in body:
-                fails.append("config.rs: the pushes and the counter increments of generate_config_messages no longer pair up")
-
-    def const(name, default=None):
-        c = re.search(r"pub const %s: \w+ = ([0-9_]+);" % name, src)
-        if not c:
-            fails.append("config.rs: constant %s not found" % name)
-            return default
-        return int(c.group(1).replace("_", ""))
-
-    vals = dict(
-        counter_bits=bits if bits is not None else 8,
-        default_front_timeout=const("DEFAULT_FRONT_TIMEOUT", 60),
-        default_back_timeout=const("DEFAULT_BACK_TIMEOUT", 30),
-        default_connect_timeout=const("DEFAULT_CONNECT_TIMEOUT", 3),
-        default_request_timeout=const("DEFAULT_REQUEST_TIMEOUT", 10),
-        default_udp_front_timeout=const("DEFAULT_UDP_FRONT_TIMEOUT", 30),
-        default_udp_back_timeout=const("DEFAULT_UDP_BACK_TIMEOUT", 30),
-        default_udp_max_rx=const("DEFAULT_UDP_MAX_RX_DATAGRAM_SIZE", 1500),
-        default_udp_max_flows=const("DEFAULT_UDP_MAX_FLOWS", 0),
-        default_buffer_size=const("DEFAULT_BUFFER_SIZE", 16393),
-        h2_min_buffer_size=const("H2_MIN_BUFFER_SIZE", 16393),
-        default_hsts_max_age=const("DEFAULT_HSTS_MAX_AGE", 31536000),
-    )
-    m = re.search(r'pub const DEFAULT_STICKY_NAME: &str = "([A-Za-z0-9_]+)";', src)
-    sticky = m.group(1) if m else "SOZUBALANCEID"
+                n_inc = len(re.findall(r"(?<![\w.])\*?\s*%s\s*\+=\s*1\s*;" % counter, body)) \
+                    + len(re.findall(r"(?<![\w.])\*?\s*%s\s*=\s*\*?\s*%s\s*\+\s*1\s*;" % (counter, counter), body))
+                if n_push == 0 or n_ids != n_push or n_inc not in (n_push, n_push - 1):
+                    soft.append("config.rs: fn %s: %d pushed WorkerRequest, %d ids built from `%s`, %d increments of it: they no longer "
+                                "pair up one to one (model: every message takes the counter's value and increments it)" % (owner, n_push, n_ids, counter, n_inc))
+                c = re.search(r"\blet\s+mut\s+%s\s*(?::\s*(\w+))?\s*=\s*0(?:_?([ui](?:8|16|32|64|128|size)))?\s*;" % counter, body)
+                prm = sig and re.search(r"\b(?:mut\s+)?%s\s*:\s*(?:&\s*(?:'\w+\s+)?mut\s+)?(\w+)" % counter, sig.group(1))
+                ty = (c.group(1) or c.group(2) or "i32") if c else (prm.group(1) if prm else None)
+                if ty is None:
+                    hard.append("config.rs: fn %s: neither `let mut %s[: T] = 0[T];` nor a parameter `%s: &mut T` found: the width of the message "
+                                "counter cannot be read (not observable by the correspondence beyond 256 messages)" % (owner, counter, counter))
+                elif ty not in INT_BITS:
+                    hard.append("config.rs: unknown counter type %s" % ty)
+                else:
+                    facts["counter_bits"] = INT_BITS[ty]
+    # --- numeric constants
+    for k, name in NUM_CONSTS.items():
+        e = const_expr(src, name)
+        v = int_value(src, e)
+        facts[k] = v
+        if e is None:
+            soft.append("config.rs: constant %s not found" % name)
+        elif v is None:
+            soft.append("config.rs: constant %s = %s is not an integer literal or a named integer constant" % (name, e[:60]))
+    m = re.search(r'\bconst\s+DEFAULT_STICKY_NAME\s*:\s*&(?:\'static\s+)?str\s*=\s*"([^"]*)"\s*;', src)
+    facts["sticky"] = m.group(1) if m else None
     if not m:
-        fails.append("config.rs: DEFAULT_STICKY_NAME not found")
-    m = re.search(r'pub const DEFAULT_ALPN_PROTOCOLS: \[&str; \d+\] = \[(.*?)\];', src)
-    alpn = re.findall(r'"([^"]+)"', m.group(1)) if m else ["h2", "http/1.1"]
-    if not m:
-        fails.append("config.rs: DEFAULT_ALPN_PROTOCOLS not found")
-    if not re.search(r"weight: backend\.weight\.unwrap_or\(100\) as i32", src):
-        fails.append("config.rs: default backend weight is no longer 100")
-    if 'format!("{}-{}-{}", self.cluster_id, backend_count, backend.address)' not in src:
-        fails.append("config.rs: default backend_id is no longer {cluster}-{index}-{address}")
+        soft.append("config.rs: DEFAULT_STICKY_NAME not found")
+    for k, name in (("alpn", "DEFAULT_ALPN_PROTOCOLS"), ("ciphers", "DEFAULT_CIPHER_LIST")):
+        facts[k] = str_array(src, name)
+        if facts[k] is None:
+            soft.append("config.rs: %s not found as an array of string literals" % name)
+    # --- default backend weight (every conversion site agrees)
+    ws = re.findall(r"\bweight\s*:\s*[\w.]*\bweight\s*\.\s*unwrap_or\(\s*([\w:]+)\s*\)", src)
+    vals = set(int_value(src, w) for w in ws)
+    facts["weight"] = None
+    if not ws or None in vals:
+        soft.append("config.rs: the default backend weight (`weight: backend.weight.unwrap_or(100)`) was not found")
+    elif len(vals) != 1:
+        hard.append("config.rs: the backend conversions no longer agree on the default weight: %s" % sorted(vals))
+    else:
+        facts["weight"] = vals.pop()
+    # --- default backend id {cluster}-{index}-{address}
+    ids_ = re.findall(r'format!\(\s*"\{\}-\{\}-\{\}"\s*,\s*([\w.]+)\s*,\s*([\w.]+)\s*,\s*([\w.]+)\s*\)', src) + \
+        [tuple(x) for x in re.findall(r'format!\(\s*"\{(\w+)\}-\{(\w+)\}-\{\}"\s*,\s*()([\w.]+)\s*\)', src)]
+    ok_ids = [t for t in ids_ if t[0].split(".")[-1] == "cluster_id" and t[-1].split(".")[-1] == "address"]
+    facts["backend_id"] = "cluster-index-address" if ok_ids else None
+    if not ok_ids:
+        soft.append("config.rs: the default backend id format!(\"{}-{}-{}\", <cluster_id>, <index>, <backend>.address) was not found")
+    # --- default TLS versions of an HTTPS listener
+    v12 = re.search(r"\bTLS_V1_2\s*=\s*(\d+)\s*;", proto_raw); v13 = re.search(r"\bTLS_V1_3\s*=\s*(\d+)\s*;", proto_raw)
+    dflt = re.search(r"\bNone\s*=>\s*\{?\s*vec!\[([^\]]*)\]", src)
+    facts["tls_versions"] = None
+    if not (v12 and v13):
+        soft.append("command.proto: TLS_V1_2 / TLS_V1_3 not found")
+    elif not dflt or not re.search(r"TlsVersion", dflt.group(1)):
+        soft.append("config.rs: the default TLS versions of an HTTPS listener (`None => vec![TlsVersion::TlsV12 as i32, TlsVersion::TlsV13 as i32]`) were not found")
+    else:
+        names = re.findall(r"TlsVersion::(\w+)", dflt.group(1))
+        table = {"TlsV12": int(v12.group(1)), "TlsV13": int(v13.group(1))}
+        if any(x not in table for x in names):
+            hard.append("config.rs: the default TLS versions of an HTTPS listener are %s (model: TLS 1.2 and 1.3 only)" % names)
+        else:
+            facts["tls_versions"] = [table[x] for x in names]
+    # --- x_real_ip flags default to false
+    flags = {}
+    for fld in ("elide_x_real_ip", "send_x_real_ip"):
+        occ = re.findall(r"\b%s\s*:\s*Some\(\s*[\w.]*\b%s\s*\.\s*(unwrap_or\(\s*[\w:]+\s*\)|unwrap_or_default\(\))\s*\)" % (fld, fld), src)
+        vs = set(False if o.startswith("unwrap_or_default") else bool_value(src, re.search(r"\((.*)\)", o).group(1)) for o in occ)
+        if not occ or None in vs:
+            soft.append("config.rs: the default of %s (`Some(self.%s.unwrap_or(false))`) was not found" % (fld, fld))
+            flags[fld] = None
+        elif vs != {False}:
+            hard.append("config.rs: %s no longer defaults to false" % fld)
+            flags[fld] = None
+        else:
+            flags[fld] = False
+    facts["x_real_ip_false"] = True if all(v is False for v in flags.values()) else None
+    return facts, hard, soft
+
+
+def load_snapshot():
+    import json
+    try:
+        return json.load(open(FACTS_PATH))
+    except (OSError, ValueError):
+        return {}
+
+
+def translate():
+    """T-const.  The facts are read by meaning (comments stripped, locals by any name, constants resolved through named
+    constants); a construct that is recognised with a value the model does not have is a hard failure, one that is not
+    recognised is reported as `unreadable:` and its value taken from the committed snapshot props/c20_facts.json
+    (see TRANSLATE_FALLBACK); the width of the message counter is not observable and stays hard."""
+    fails = []
+    try:
+        src_raw = open(os.path.join(vlib.REPO, "command/src/config.rs")).read()
+        proto_raw = open(os.path.join(vlib.REPO, "command/src/command.proto")).read()
+        facts, hard, soft = read_facts(src_raw, proto_raw)
+    except Exception as e:                                   # never an exception out of the translator
+        facts, hard, soft = {}, ["config.rs could not be read: %r" % (e,)], []
+    snap = load_snapshot()
+    fails += [h % snap.get("counter_bits", "?") if "%s" in h else h for h in hard]
+    fails += ["unreadable: " + m for m in soft]
+    f = {}
+    for k in list(NUM_CONSTS) + ["counter_bits", "sticky", "alpn", "ciphers", "weight", "tls_versions"]:
+        v = facts.get(k)
+        if v is None:
+            v = snap.get(k)
+            if v is None:
+                fails.append("props/c20_facts.json has no value for %s and the source could not be read" % k)
+                v = {"sticky": "", "alpn": [], "ciphers": [], "tls_versions": []}.get(k, 0)
+        f[k] = v
 
     def bl(s):
         return "[" + ";".join(str(b) for b in s.encode()) + "]%N"
 
     lines = ["(* GENERATED by props/c20.py:translate from /repo/command/src/config.rs — do not edit *)",
              "From Coq Require Import List NArith ZArith.", "From SV Require Import Common.Tok.", "Import ListNotations.", "Open Scope Z_scope.", ""]
-    for k, v in vals.items():
-        lines.append("Definition %s : Z := %d." % (k, v))
-    lines.append("Definition default_sticky_name : list N := %s." % bl(sticky))
-    lines.append("Definition default_alpn : list (list N) := [%s]." % "; ".join(bl(a) for a in alpn))
-    lines.append("Definition default_weight : Z := 100.")
+    lines.append("Definition counter_bits : Z := %d." % f["counter_bits"])
+    for k in NUM_CONSTS:
+        if k != "default_tickets":
+            lines.append("Definition %s : Z := %d." % (k, f[k]))
+    lines.append("Definition default_sticky_name : list N := %s." % bl(f["sticky"]))
+    lines.append("Definition default_alpn : list (list N) := [%s]." % "; ".join(bl(a) for a in f["alpn"]))
+    lines.append("Definition default_weight : Z := %d." % f["weight"])
     # listener extension defaults: x_real_ip flags, answers, tls versions, cipher list, tls1.3 tickets
-    m = re.search(r'pub const DEFAULT_CIPHER_LIST: \[&str; \d+\] = \[(.*?)\];', src, re.S)
-    ciphers = re.findall(r'"([^"]+)"', re.sub(r"//[^\n]*", "", m.group(1))) if m else []
-    if not m:
-        fails.append("config.rs: DEFAULT_CIPHER_LIST not found")
-    tickets = const("DEFAULT_SEND_TLS_13_TICKETS", 4)
-    proto = open(os.path.join(vlib.REPO, "command/src/command.proto")).read()
-    v12 = re.search(r"TLS_V1_2 = (\d+);", proto); v13 = re.search(r"TLS_V1_3 = (\d+);", proto)
-    if not (v12 and v13) or "None => vec![TlsVersion::TlsV12 as i32, TlsVersion::TlsV13 as i32]" not in src:
-        fails.append("config.rs: the default TLS versions of an HTTPS listener are no longer [TLS 1.2, TLS 1.3]")
-    vs = [int(v12.group(1)) if v12 else 4, int(v13.group(1)) if v13 else 5]
-    if "elide_x_real_ip: Some(self.elide_x_real_ip.unwrap_or(false))" not in src or "send_x_real_ip: Some(self.send_x_real_ip.unwrap_or(false))" not in src:
-        fails.append("config.rs: elide_x_real_ip / send_x_real_ip no longer default to false")
+    vs, ciphers = f["tls_versions"], f["ciphers"]
     lines.append("Definition default_ext_http : list tok := [TN 0; TN 0; TN 0; TN 0; TN 0; TN (-1)].")
     lines.append("Definition default_ext_https : list tok := [TN 0; TN 0; TN 0; TN %d; %s; TN %d; %s; TN %d]."
-                 % (len(vs), "; ".join("TN %d" % v for v in vs), len(ciphers), "; ".join("TB " + bl(c) for c in ciphers), tickets))
+                 % (len(vs), "; ".join("TN %d" % v for v in vs), len(ciphers), "; ".join("TB " + bl(c) for c in ciphers), f["default_tickets"]))
     vlib.write_if_changed(os.path.join(vlib.COQ, "C20", "Gen.v"), "\n".join(lines) + "\n")
     return fails
+
+
+TRANSLATE_FALLBACK = ("every fact that may be reported unreadable is printed by the driver on the cases the generator produces: the listener, "
+                      "cluster, frontend and backend records of the state (timeouts, buffer size check, HSTS max-age, sticky name, ALPN list, "
+                      "cipher list, TLS versions, tickets, x_real_ip flags, backend weight and default backend id) are compared field by field "
+                      "with the model's on files that leave those knobs unset, and the `ids` observation compares the id of EVERY generated "
+                      "message with the model's numbering; the one fact the cases cannot observe (the counter's width beyond 256 messages) "
+                      "is never reported as unreadable")
+
+
+def snapshot():
+    """`python3 props/c20.py --snapshot`: record the facts read from the current source (never done at check time)"""
+    import json
+    facts, hard, soft = read_facts(open(os.path.join(vlib.REPO, "command/src/config.rs")).read(),
+                                   open(os.path.join(vlib.REPO, "command/src/command.proto")).read())
+    if hard or soft:
+        raise SystemExit("not snapshotting: %s" % (hard + soft))
+    json.dump(facts, open(FACTS_PATH, "w"), indent=1, sort_keys=True)
+    print("wrote", FACTS_PATH)
 
 
 # ---------------------------------------------------------------------------
@@ -980,3 +1188,9 @@ LEVEL_NOTE = ("Partial where stated: TOML -> FileConfig (toml/serde) is covered 
               "counter (cd23906), certificate without key (1ae5a06), unvalidated health_check (c916f85), duplicate frontends accepted "
               "(b1489f3, 495ea94), duplicate backends merged (58bb4e6), a TCP/UDP address claimed by two clusters accepted (88dc093).")
 TECHNIQUE = "Rocq/Coq proof over an executable Gallina model + differential correspondence (extracted OCaml vs real crate)"
+
+
+if __name__ == "__main__":
+    import sys
+    if "--snapshot" in sys.argv:
+        snapshot()
